@@ -87,6 +87,15 @@ type TypeSpec struct {
 	GateCalls map[string]string // "<function>:<method>(<arg>)" -> gate variable accessed there
 	WireOps   map[string]string // method name on the embedded/underlying conn -> variable accessed (ws: WriteMessage -> wswrite)
 	Out       string            // Lean def name
+	Witness   []WitnessSpec     // schedules to emit: a goroutine reaching an access inside a critical section
+}
+
+// WitnessSpec asks for the shortest single-goroutine path from the dispatcher to a node that accesses Var while
+// holding every lock of Need in the given mode ("ex" / "sh")
+type WitnessSpec struct {
+	Name string
+	Var  string
+	Need map[string]string
 }
 
 type T struct {
@@ -769,8 +778,21 @@ func translate(repo string, spec *TypeSpec) ([]Instr, []string, map[string][]str
 				if !ok || as.Tok != token.ASSIGN {
 					return true
 				}
-				for _, l := range as.Lhs {
-					if chain(l) == rn+"."+field {
+				for i, l := range as.Lhs {
+					if chain(l) != rn+"."+field {
+						continue
+					}
+					// x.f = x.f | e is a read-modify-write inside one statement, not a store of a snapshot
+					selfRef := false
+					if i < len(as.Rhs) {
+						ast.Inspect(as.Rhs[i], func(m ast.Node) bool {
+							if se, ok := m.(*ast.SelectorExpr); ok && chain(se) == rn+"."+field {
+								selfRef = true
+							}
+							return !selfRef
+						})
+					}
+					if !selfRef {
 						t.facts[key] = append(t.facts[key], strings.TrimPrefix(name, spec.Recv+"."))
 					}
 				}
@@ -937,6 +959,56 @@ func leanProg(name string, spec *TypeSpec, code []Instr, entryNames []string, fa
 		}
 		fmt.Fprintf(&b, "/-- functions containing `%s` -/\ndef %s_%s : List String := [%s]\n\n", k, name, strings.NewReplacer(":", "_", ".", "_").Replace(k), strings.Join(q, ", "))
 	}
+	// witness schedules (goroutine 0 alone): start a call, then one scheduler decision per edge of the shortest path
+	for _, ws := range spec.Witness {
+		holds := func(in Instr) bool {
+			h := map[string]string{}
+			if in.Held != "" {
+				for _, kv := range strings.Split(in.Held, ",") {
+					p := strings.Split(kv, ":")
+					h[p[0]] = p[1]
+				}
+			}
+			for l, m := range ws.Need {
+				if h[l] != m {
+					return false
+				}
+			}
+			return true
+		}
+		type qe struct {
+			node int
+			path []int
+		}
+		seen := map[int]bool{0: true}
+		queue := []qe{{0, nil}}
+		var found []int
+		ok := false
+		for len(queue) > 0 && !ok {
+			e := queue[0]
+			queue = queue[1:]
+			in := code[e.node]
+			if (in.Op == "read" || in.Op == "write") && in.Arg == ws.Var && holds(in) {
+				found, ok = e.path, true
+				break
+			}
+			for ci, nx := range in.Succ {
+				if !seen[nx] {
+					seen[nx] = true
+					queue = append(queue, qe{nx, append(append([]int{}, e.path...), ci)})
+				}
+			}
+		}
+		steps := []string{"(0, 0)"}
+		for _, c := range found {
+			steps = append(steps, fmt.Sprintf("(0, %d)", c))
+		}
+		if !ok {
+			steps = nil
+		}
+		fmt.Fprintf(&b, "/-- witness schedule `%s`: goroutine 0 from the dispatcher to an access of `%s` holding %v (empty: no such node) -/\ndef %s_witness_%s : List (Nat × Nat) := [%s]\n\n",
+			ws.Name, ws.Var, ws.Need, name, ws.Name, strings.Join(steps, ", "))
+	}
 	return b.String()
 }
 
@@ -998,10 +1070,14 @@ func constants(repo string) string {
 
 // sizeBounded: the size argument of a make call is a constant, a len(…)/cap(…) of existing data, or arithmetic
 // over such terms (including library helpers applied to them, e.g. hex.EncodedLen(len(sum)))
+var pkgConsts = map[string]bool{}
+
 func sizeBounded(e ast.Expr) bool {
 	switch x := e.(type) {
 	case *ast.BasicLit:
 		return true
+	case *ast.Ident:
+		return pkgConsts[x.Name] // a named constant of the package
 	case *ast.ParenExpr:
 		return sizeBounded(x.X)
 	case *ast.BinaryExpr:
@@ -1028,6 +1104,17 @@ func sizeBounded(e ast.Expr) bool {
 func allocSites(repo string) string {
 	fset := token.NewFileSet()
 	_, _, files := parseDir(fset, filepath.Join(repo, "fluent/protocol"))
+	for _, f := range files {
+		for _, d := range f.Decls {
+			if gd, ok := d.(*ast.GenDecl); ok && gd.Tok == token.CONST {
+				for _, sp := range gd.Specs {
+					for _, n := range sp.(*ast.ValueSpec).Names {
+						pkgConsts[n.Name] = true
+					}
+				}
+			}
+		}
+	}
 	var sites []string
 	for _, f := range files {
 		fname := filepath.Base(fset.Position(f.Pos()).Filename)
@@ -1093,7 +1180,8 @@ func main() {
 			Locks:   map[string]int{"sessionLock": 0, "ackLock": 1},
 			Vars:    map[string]int{"session": 0, "transport": 1, "wire": 2},
 			Fields:  map[string]string{"session": "session", "session.TransportPhase": "transport"},
-			ConnSel: []string{"session.Connection"}},
+			ConnSel: []string{"session.Connection"},
+			Witness: []WitnessSpec{{Name: "sendSection", Var: "wire", Need: map[string]string{"ackLock": "ex", "sessionLock": "sh"}}}},
 		{Dir: "fluent/client", Recv: "WSClient", Out: "wsClient",
 			Locks:  map[string]int{"sessionLock": 0, "errLock": 2},
 			Vars:   map[string]int{"session": 0, "err": 3},
@@ -1108,7 +1196,8 @@ func main() {
 			// every method of the underlying websocket connection that writes frames / reads frames
 			WireOps: map[string]string{"WriteMessage": "wswrite", "NextWriter": "wswrite", "WriteControl": "wswrite",
 				"WritePreparedMessage": "wswrite", "WriteJSON": "wswrite",
-				"ReadMessage": "wsread", "NextReader": "wsread", "ReadJSON": "wsread"}},
+				"ReadMessage": "wsread", "NextReader": "wsread", "ReadJSON": "wsread"},
+			Witness: []WitnessSpec{{Name: "writeSection", Var: "wswrite", Need: map[string]string{"writeLock": "ex"}}}},
 	}
 	var body strings.Builder
 	body.WriteString("import FluentVerif.Conc.Protect\n/-! GENERATED by /verif/translator from /repo's working tree — do not edit.  Regenerated on every check run. -/\nset_option maxRecDepth 100000\nnamespace FV.Gen\nopen FV.Lk\n\n")
